@@ -87,7 +87,16 @@ func (o OneOfSchema[KeyType]) UnserializeType(data any) (result any, err error) 
 		}
 	}
 
-	discriminatorValue := reflectedValue.MapIndex(reflect.ValueOf(o.DiscriminatorFieldNameValue))
+	discriminatorKey := reflect.ValueOf(o.DiscriminatorFieldNameValue)
+	if !discriminatorKey.Type().AssignableTo(reflectedValue.Type().Key()) {
+		return result, &ConstraintError{
+			Message: fmt.Sprintf(
+				"Invalid key type for one-of: '%s'. Expected string keys.",
+				reflectedValue.Type().Key().String(),
+			),
+		}
+	}
+	discriminatorValue := reflectedValue.MapIndex(discriminatorKey)
 	if !discriminatorValue.IsValid() {
 		return result, &ConstraintError{
 			Message: fmt.Sprintf("Missing discriminator field '%s' in '%v'", o.DiscriminatorFieldNameValue, data),
@@ -353,6 +362,11 @@ func (o OneOfSchema[KeyType]) getTypedDiscriminator(discriminator any) (KeyType,
 func (o OneOfSchema[KeyType]) findUnderlyingType(data any) (KeyType, Object, error) {
 	var nilKey KeyType
 
+	if data == nil {
+		return nilKey, nil, &ConstraintError{
+			Message: "Invalid type for one-of type: nil; expected struct or map.",
+		}
+	}
 	reflectedType := reflect.TypeOf(data)
 	if reflectedType.Kind() != reflect.Struct &&
 		reflectedType.Kind() != reflect.Map &&
@@ -368,7 +382,16 @@ func (o OneOfSchema[KeyType]) findUnderlyingType(data any) (KeyType, Object, err
 
 	var foundKey *KeyType
 	if reflectedType.Kind() == reflect.Map {
-		myKey, mySchemaObj, err := o.validateMap(data.(map[string]any))
+		dataMap, ok := data.(map[string]any)
+		if !ok {
+			return nilKey, nil, &ConstraintError{
+				Message: fmt.Sprintf(
+					"Invalid map type for one-of type: %T; expected map[string]any.",
+					data,
+				),
+			}
+		}
+		myKey, mySchemaObj, err := o.validateMap(dataMap)
 		if err != nil {
 			return nilKey, nil, err
 		}
